@@ -103,6 +103,9 @@ def cases(draw):
     for i in range(n):
         sel = draw(selector(g))
         lab = {"form": draw(st.sampled_from(["full", "full", "prefixed"])), "name": "S%d" % (i if draw(st.integers(0, 3)) else 0)}
+        if draw(st.integers(0, 5)) == 0:
+            # the label is the IRI of a class of the graph (in mixed mode the class has a shape of its own, labelled in the shapes namespace)
+            lab = {"form": "class", "name": draw(st.sampled_from(g["classes"]))}
         items.append({"sel": sel, "label": lab, "styles": draw(st.lists(st.integers(0, 1), min_size=4, max_size=4))})
     return {"mode": mode, "g": g, "cfg": cfg, "items": items, "syntax": draw(st.sampled_from(["fsm", "fsm", "json"])),
             "via_file": draw(st.booleans()), "with_all_classes": draw(st.integers(0, 3)) == 0,
@@ -120,6 +123,8 @@ selftest = c01.selftest
 
 
 def label_text(lab):
+    if lab["form"] == "class":
+        return "<%s>" % lab["name"]
     return "<%s%s>" % (LABEL_NS, lab["name"]) if lab["form"] == "full" else "ex:%s" % lab["name"]
 
 
@@ -233,7 +238,8 @@ def check(case, own=None):
             if len(ans) != len({a[1] for a in ans}):
                 labels.add("selector-returns-duplicates")
             nm = it["label"]["name"]
-            label_of[key] = LABEL_NS + nm if it["label"]["form"] == "full" else (refmodel.SHAPES_NS + nm, "http://ex.org/" + nm)
+            label_of[key] = nm if it["label"]["form"] == "class" else \
+                LABEL_NS + nm if it["label"]["form"] == "full" else (refmodel.SHAPES_NS + nm, "http://ex.org/" + nm)
             text = selectors.render(it["sel"], NSD, it["styles"])
             labels.add("sel:" + it["sel"]["kind"])
             if "_" in (it["sel"].get("other"),) or ":" in text.split("{")[-1].split("<")[0] or it["sel"]["kind"] == "sparql":
